@@ -180,6 +180,45 @@ def run(chk):
         ok = db == {"B"} and dc == {"C"}
         chk.ob("O20.2", f"'{lab}': operands", ok, c, f"baseline operand `{short(b.get('baseline'), 50)}` <- {sorted(db)}; contender operand `{short(b.get('contender'), 50)}` <- {sorted(dc)}",
                key=f"{_R}:{source.qualname(c)}:roles:{lab}")
+    # sibling agreement inside each reporting method: whatever is selected from the baseline race is selected from the contender race too (same attribute / key / call chain)
+    n_sym = 0
+    for name, f in cm.items():
+        env = roles.env_for(f)
+        ps = [p_ for p_ in params_of(f) if p_ != "self"]
+        pb = [p_ for p_ in ps if roles.param_roles.get((f.name, p_)) == {"B"}]
+        pc = [p_ for p_ in ps if roles.param_roles.get((f.name, p_)) == {"C"}]
+        # the two sides of a comparison are ADJACENT parameters (baseline first); a task name taken from the baseline's task list also carries the baseline role
+        pair = [(ps[i], ps[i + 1]) for i in range(len(ps) - 1) if ps[i] in pb and ps[i + 1] in pc]
+        if len(pair) != 1:
+            continue
+        pb, pc = [pair[0][0]], [pair[0][1]]
+
+        def selectors(root):
+            out = set()
+            for n in ast.walk(f):
+                if isinstance(n, ast.Name) and n.id == root and isinstance(n.ctx, ast.Load):
+                    top = n
+                    while isinstance(source.parent(top), (ast.Attribute, ast.Subscript)) and source.parent(top).value is top or \
+                            (isinstance(source.parent(top), ast.Call) and source.parent(top).func is top):
+                        top = source.parent(top)
+                    if isinstance(source.parent(top), ast.Call) and dotted(source.parent(top).func) == "getattr" and source.parent(top).args and source.parent(top).args[0] is top:
+                        top = source.parent(top)
+                    t_ = ast.unparse(top)
+                    out.add(t_.replace(root, "<race>"))
+            return out
+
+        # the unit of a line is taken from one side only (by design: both races measure the same thing); that selection is not a compared value
+        unit_only = lambda t_: t_.endswith("['unit']") or t_.endswith(".unit")  # noqa: E731
+        sb, sc = {t_ for t_ in selectors(pb[0]) if not unit_only(t_)}, {t_ for t_ in selectors(pc[0]) if not unit_only(t_)}
+        if not sb and not sc:
+            continue
+        n_sym += 1
+        only_b, only_c = sorted(sb - sc), sorted(sc - sb)
+        # a bare pass-through of the race object itself (handed to a helper) is symmetric by construction
+        ok = not only_b and not only_c
+        chk.ob("O20.2", f"{name}: the same selections are made from the baseline and from the contender race", ok, f,
+               "" if ok else f"only from the baseline: {only_b}; only from the contender: {only_c} — the line compares two different metrics", key=f"{_R}:ComparisonReporter.{name}:symmetric-selectors")
+    chk.ob("O20.2", "reporting methods with both races located", n_sym >= 10, rep, f"{n_sym} method(s)")
     # report(): GlobalStats(r1.results) first
     mcalls = [n for n in walk_body(rep) if isinstance(n, ast.Call) and u(n.func) == "self._metrics_table"]
     renv = roles.env_for(rep)
